@@ -384,6 +384,8 @@ func (r *throttleLateRunner) Do(op []string) string {
 //	latecancel <n> => ok | ran <trial>            the debounced function STARTED after cancel() had returned
 //	latecall <n>   => ok | early <trial> <gap us>  the function of the older call started after a newer call had returned,
 //	                                               less than `wait` after it
+//	gapcancel <n>  => ok | ran-after-go-ahead <trial>   (hook VerifDebounceGap) cancel() completed between the goroutine's
+//	gapcall <n>    => ok | ran-after-go-ahead <trial>   go-ahead check and the function / a newer call did (finding F46)
 //
 // time.AfterFunc does not run f when the timer expires: the runtime starts a goroutine for it, which may be scheduled
 // any time later; in that window Timer.Stop returns false and stops nothing.  Each trial makes the window deterministic:
@@ -447,6 +449,43 @@ func (r *debounceLateRunner) Do(op []string) string {
 			cancel()
 			if e := early.Load(); e != 0 {
 				return "early " + itoa(trial) + " " + itoa(int(time.Duration(e)/time.Microsecond))
+			}
+		case "gapcancel", "gapcall":
+			// deterministic (hook VerifDebounceGap, build tag verif): the goroutine of the expired timer has made its
+			// go-ahead check and released the lock; before it runs the function, a cancel() (or a newer call) runs to
+			// completion.  No clock in the verdict: `after` is set strictly after cancel()/the call returned.
+			var after, ranAfter atomic.Bool
+			var fired atomic.Int32
+			done := make(chan struct{}, 4)
+			hooked := setDebounceGap(func() {
+				if fired.Add(1) != 1 {
+					return
+				}
+				if op[0] == "gapcancel" {
+					cancel()
+				} else {
+					debounce(func() { done <- struct{}{} })
+				}
+				after.Store(true)
+			})
+			if !hooked {
+				return "nohook"
+			}
+			debounce(func() {
+				if after.Load() {
+					ranAfter.Store(true)
+				}
+				done <- struct{}{}
+			})
+			select {
+			case <-done:
+			case <-time.After(hangLimit / 8):
+			}
+			cancel()
+			setDebounceGap(nil)
+			time.Sleep(2 * wait)
+			if ranAfter.Load() {
+				return "ran-after-go-ahead " + itoa(trial)
 			}
 		default:
 			panic("harness: bad op " + op[0])
@@ -651,7 +690,7 @@ func genC20(g *Gen) {
 			if g.Thorough() {
 				rounds = "25"
 			}
-			g.Emit("debouncelate", []string{itoa(w)}, []string{"latecancel " + rounds, "latecall " + rounds})
+			g.Emit("debouncelate", []string{itoa(w)}, []string{"latecancel " + rounds, "latecall " + rounds, "gapcancel 2", "gapcall 2"})
 		}
 	}
 	// ---- throttle: a trailing timer that runs late (real clock, one P) -------------------------------
